@@ -75,6 +75,9 @@ type c16Cfg struct {
 	Chunk      int      `json:"server_read_chunk"`
 	Truncate   int      `json:"truncate_stream_after"`
 	HandlerBuf int      `json:"handler_buffer"`
+	// UnknownLength: the request body is a plain io.Reader, so an uncompressed request goes out chunked, without
+	// Content-Length
+	UnknownLength bool `json:"body_of_unknown_length"`
 }
 
 func makeBody(tp *simkit.Tape, kind string, n int) []byte {
@@ -162,6 +165,7 @@ func runC16(r *simkit.Run) {
 	if tp.Chance(1, 8) {
 		cfg.Truncate = tp.Range(1, 400+cfg.BodyLen/2)
 	}
+	cfg.UnknownLength = tp.Chance(1, 3)
 	cfg.HandlerBuf = []int{1, 3, 512, 32768}[tp.Draw(4)]
 	if cfg.BodyLen > 100000 && cfg.HandlerBuf < 512 {
 		cfg.HandlerBuf = 512
@@ -248,7 +252,13 @@ func runC16(r *simkit.Run) {
 	defer client.CloseIdleConnections()
 	r.Events++
 	simkit.Beat()
-	resp, perr := client.Post(cc.Endpoint+"/", "application/octet-stream", bytes.NewReader(body))
+	var rd io.Reader = bytes.NewReader(body)
+	if cfg.UnknownLength {
+		// a body whose length the client cannot know in advance: sent with chunked transfer encoding, no Content-Length
+		rd = io.MultiReader(rd)
+		r.Count("probe.request_without_content_length")
+	}
+	resp, perr := client.Post(cc.Endpoint+"/", "application/octet-stream", rd)
 	status := 0
 	if perr != nil {
 		// keep the ephemeral port out of messages and logs (replay compares the event log)
